@@ -123,8 +123,21 @@ func genC04(out, tier string, rng *rand.Rand) {
 		}
 	}
 	RunTasks(sink, tasks)
+	// ... then the same conditions revisited inside random histories
+	nh := 150
+	if tier == "thorough" {
+		nh = 2000
+	}
+	var htasks []Task
+	for i := 0; i < nh; i++ {
+		prog := genHistory(rng, "C04", namesRepresentable, 30)
+		for _, mk := range stores() {
+			htasks = append(htasks, Task{mk, "history", prog, true})
+		}
+	}
+	RunTasksNT(sink, htasks, histNontrivial)
 	sink.Close("complete truth table: 4 condition parameters x {unset, =current, current+1, \"0\", \"-7\", \"12x\"} x object state "+
 		"{absent, fresh, patched, overwritten} x operation {media, multipart, resumable, patch, delete, compose destination, compose source} x store {mem, file}; "+
 		"each case = setup + operation + metadata/media GET of every object; distinct = distinct canonical (program, observation) text; "+
-		"non-trivial = at least one condition parameter supplied", true)
+		"non-trivial = at least one condition parameter supplied; followed by random histories (tag history) with conditions on one request in three", true)
 }
